@@ -217,9 +217,15 @@ def build_rs(features=(), profile=None):
         shutil.copy(os.path.join(REPO, "Cargo.lock"), lock)
     target = os.path.join(RS_DIR, "target" if not features else "target-" + "-".join(features))
     cmd = ["cargo", "build", "--offline", "--target-dir", target] + (["--profile", profile] if profile else ["--release"])
-    if features:
-        cmd += ["--features", ",".join(features)]
-    rc, out = run(cmd, cwd=RS_DIR, timeout=3600)
+    # the pseudo-feature `native` is not a Cargo feature: it compiles the crate for the build machine's own CPU
+    # (RUSTFLAGS -C target-cpu=native), which turns on every cfg(target_feature = ...) the CPU supports at compile time
+    cargo_feats = [f for f in features if f != "native"]
+    env = None
+    if "native" in features:
+        env = {"RUSTFLAGS": "--cfg blake3_team_blake3_verif -C target-cpu=native"}
+    if cargo_feats:
+        cmd += ["--features", ",".join(cargo_feats)]
+    rc, out = run(cmd, cwd=RS_DIR, timeout=3600, env=env)
     exe = os.path.join(target, profile or "release", "b3-verif-harness")
     _built[key] = (rc == 0, exe, out)
     return _built[key]
